@@ -287,6 +287,23 @@ func runCatalogue(c *Ctx) {
 			}
 			fresh.Close()
 			c.Count("cut")
+			// a lagging member: it applied the entries up to the cut, then receives the leader's
+			// snapshot of the whole log (it may still list datasets deleted since, and old replica lists)
+			lagging := newSimCluster(1)
+			for i := 0; i < cut; i++ {
+				lagging.nodes[1].group.processFn(log[i])
+			}
+			before := listingOf(lagging.nodes[1].node.DatasetManager)
+			if err := lagging.nodes[1].group.restoreFn(snaps[len(log)]); err != nil {
+				c.Violate("C14", "C14/restore-error", fmt.Sprintf("installing the final catalogue snapshot on a member that applied %d entries failed: %v", cut, err), c.History())
+			}
+			if got := listingOf(lagging.nodes[1].node.DatasetManager); got != final {
+				c.Violate("C14", "C14/snapshot-onto-stale-catalogue", fmt.Sprintf("a member that applied %d of the %d entries (listing %q) and then installs the snapshot of the whole log lists %q; the snapshotted catalogue is %q", cut, len(log), before, got, final), c.History())
+			}
+			if before != final {
+				c.Nontrivial("lagging-member-installs-snapshot")
+			}
+			lagging.Close()
 		}
 		cl.Close()
 		c.End()
@@ -309,8 +326,20 @@ func runCatalogue(c *Ctx) {
 		lag.nodes[1].group.restoreFn(sn)
 		c.OpLocal("leader: create A; delete A; create B; snapshot. lagging member: create A; install snapshot")
 		want, got := listingOf(cl.nodes[1].node.DatasetManager), listingOf(lag.nodes[1].node.DatasetManager)
-		if len(strings.Split(got, "|")) != len(strings.Split(want, "|")) {
-			c.Violate("C14", "C14/snapshot-onto-stale-catalogue", "a member that installs a catalogue snapshot while still listing a dataset deleted before the snapshot keeps listing it (processSnapshot only adds)", c.History())
+		// the model plays the lagging member: it holds A and installs the leader's catalogue
+		{
+			m := old.Meta()
+			var ps []string
+			for _, p := range m.GetPartitions() {
+				ps = append(ps, fmt.Sprintf("%d:%s", unum(uuid.FromBytesOrNil(p.GetId())), u64s(p.GetNodeIds())))
+			}
+			c.Op("create %d %d %d %d %s", unum(old.VerifId()), m.GetDimension(), int(m.GetSpace()), m.GetReplicationFactor(), strings.Join(ps, ";"))
+			c.Res("ok")
+			c.Op("install %s", strings.ReplaceAll(strings.TrimPrefix(want, "L "), " ", "_"))
+			c.Res("%s", got)
+		}
+		if got != want {
+			c.Violate("C14", "C14/snapshot-onto-stale-catalogue", fmt.Sprintf("a member that still lists a dataset deleted before the snapshot installs the snapshot and lists %q; the snapshotted catalogue is %q", got, want), c.History())
 		}
 		lag.Close()
 		cl.Close()
